@@ -56,7 +56,7 @@ def make_case(ctx, idx):
     a = gen.Gen(r, gen.profile("c01", p_repeat_id=0.4)).program()
     b = gen.Gen(r, gen.profile("c01", p_repeat_id=0.4)).program()
     return {"A": a, "B": b, "lookup_steps": sorted(r.sample(range(len(a)), min(len(a), 4))), "seed": r.randint(0, 2 ** 30),
-            "derive": r.sample(["ctor", "add_record", "update", "add_bundle", "unified", "flattened", "json", "xml"], r.randint(2, 5))}
+            "derive": r.sample(["ctor", "add_record", "update", "add_bundle", "unified", "flattened", "json", "xml", "adopt_bundles"], r.randint(2, 5))}
 
 
 def scan(c):
@@ -160,6 +160,14 @@ def explicit_lookups(ctx, c, r, where, problems, n_present=3, n_absent=2):
                     break
         spellings.append(("uri", uri))
         spellings.append(("uri_as_Identifier_object", Identifier(uri)))
+        root = getattr(c, "_document", None)
+        if want and root is not None and root is not c:
+            # a bundle answers to the names of the document it lives in: a prefix only the document declares
+            own = {n.prefix for n in c.namespaces} | set(getattr(c._namespaces, "_prefix_renamed_map", {})) | set(dict.keys(c._namespaces))
+            for n in root.namespaces:
+                if n.prefix and n.prefix not in own and not n.prefix.startswith(("sp", "lk")) and uri.startswith(n.uri) and len(uri) > len(n.uri) and ":" not in uri[len(n.uri):]:
+                    spellings.append(("printed_with_a_prefix_of_the_document", "%s:%s" % (n.prefix, uri[len(n.uri):])))
+                    break
         for name, x in spellings:
             ctx.count("lookup.%s.%s" % (name, "present" if want else "absent"))
             try:
@@ -229,6 +237,40 @@ def judge(ctx, idx, case):
                 flat = pm.ProvDocument(records=B.get_records())
                 A.add_bundle(flat, Namespace("exb", "http://ex.org/bundles/")["added%d" % r.randint(0, 2)])
                 derived.append(("add_bundle", A))
+            elif d == "adopt_bundles":
+                # the bundle *objects* of another document are attached to A (add_bundle(bundle)); that document is then dropped and
+                # collected; the bundles now live in A and answer to A's names
+                import gc
+                donor = common.build(case["B"]).doc
+                taken = 0
+                for b in list(donor.bundles):
+                    try:
+                        A.add_bundle(b)
+                        taken += 1
+                    except pm.ProvException:
+                        pass
+                adopted = [b for b in A.bundles if b.document is A and any(b is x for x in donor.bundles)]
+                del donor
+                gc.collect()
+                ctx.count("adopted_bundles", taken)
+                # the adopting document now declares a prefix of its own for a namespace an adopted bundle uses: the bundle lives in A,
+                # so it answers to that prefix
+                for k, b in enumerate(adopted[:2]):
+                    recs_ = [x for x in b.get_records() if x.identifier is not None and ":" not in x.identifier.localpart and x.identifier.localpart]
+                    if not recs_:
+                        continue
+                    x = recs_[0]
+                    ns_ = A.add_namespace("adopter%d" % k, x.identifier.namespace.uri)
+                    own_ = {n.prefix for n in b.namespaces} | set(dict.keys(b._namespaces)) | set(getattr(b._namespaces, "_prefix_renamed_map", {}))
+                    if ns_ is None or not ns_.prefix or ns_.prefix in own_:
+                        continue
+                    want_ = [y for y in b.get_records() if y.identifier is not None and y.identifier.uri == x.identifier.uri]
+                    got_ = b.get_record("%s:%s" % (ns_.prefix, x.identifier.localpart))
+                    ctx.count("adopted_bundle_asked_under_a_prefix_of_its_new_document")
+                    if [id(y) for y in (got_ or [])] != [id(y) for y in want_]:
+                        problems.append("adopted bundle <%s>: get_record(%r) under a prefix its new document declares returned %d records, the bundle holds %d for <%s>"
+                                        % (b.identifier.uri, "%s:%s" % (ns_.prefix, x.identifier.localpart), len(got_ or []), len(want_), x.identifier.uri))
+                derived.append(("add_bundle(bundle objects of a document that died)", A))
             elif d == "unified":
                 derived.append(("unified", A.unified()))
             elif d == "flattened":
